@@ -419,7 +419,11 @@ def _strategy():
                      {"stop_signal": 2}])})),
             req('start', st.fixed_dictionaries(
                 {"name": name, "match": st.just("simple"), "waiting": wt})),
-            req('reload', st.fixed_dictionaries({"name": name})))
+            req('reload', st.fixed_dictionaries({"name": name})),
+            req('kill', st.fixed_dictionaries(
+                {"name": name}, optional={
+                    "graceful_timeout": st.sampled_from([0.1, 0.5, 2.0]),
+                    "signum": st.sampled_from([15, 2, 10])})))
         ops = draw(st.lists(st.one_of(stoppers, stoppers, others,
                                       pacing_ops(), pacing_ops(),
                                       death_ops()),
